@@ -527,6 +527,17 @@ def make_cases(ctx, rng, cd, witnesses, gdict):
     for mode in (0, 1, 2, 3):
         for _ in range(2 if quick else 12):
             add("C", b"", "copydctx:%d" % mode, dict_=gd, cap=1024, flags=str(mode))
+    # round 3: skippable frames at every case split of readSkippableFrameSize / ZSTD_readSkippableFrame (size field vs input length +-1, the U32 wrap values,
+    # header cut short, a frame behind it)
+    for u in (0, 1, 5, 62, 63, 64, 65, 300, 0xfffffff7, 0xfffffff8, 0xfffffff9, 0xffffffff, 0x80000000):
+        for have in sorted(set(x for x in (0, 1, u - 1, u, u + 1, 70) if 0 <= x <= 400)):
+            add("F", bytes([0x50 + rng.randrange(16)]) + SKIPMAGIC[1:] + u.to_bytes(4, "little") + rng.randbytes(have), "skippable-edge", cap=512)
+    for cut in range(0, 8):
+        add("F", (bytes([0x5a]) + SKIPMAGIC[1:] + bytes([2, 0, 0, 0]))[:cut], "skippable-edge", cap=64)
+    # round 3: a context recovered after a streaming error - by a reset, or by a single call (zstd.h: "implied for operations starting some new decompression job")
+    for variant in (0, 1, 2, 3):
+        for n in ((20000,) if quick else (0, 1, 300, 20000, 140000)):
+            add("R", b"", "recover:%d" % variant, cap=n, flags=str(variant))
     # round 3: who owns the current dictionary of a context - histories of create / load / refPrefix / refDDict / clear / use / free / ZSTD_copyDCtx on
     # three contexts (model coq/Safety/DictOwner.v; finding C03-copydctx-ddict-pointer-into-source, fixed 555a48a)
     progs = ["n1,n2,l1,c21,f1,u2", "n1,n2,p1,c21,l1,u2", "n1,n2,l1,c21,u2,u1,f2,u1", "n1,n2,r10,c21,f1,u2", "n1,n2,l2,l1,c21,f1,u2,x2,u2",
@@ -560,6 +571,21 @@ def make_cases(ctx, rng, cd, witnesses, gdict):
     add("L", bytes.fromhex("27b52ffd0000" "00000a" + BIGMATCH_BODY + "c00000"), "legacy-bigmatch:v0.7", cap=400000)
     add("L", bytes.fromhex("26b52ffd00" "00000a" + BIGMATCH_BODY + "c00000"), "legacy-bigmatch:v0.6", cap=400000)
     add("L", bytes.fromhex("27b52ffd0000" "00000a" + "c141" "0154010234" "fcff04" + "c00000"), "legacy-bigmatch-exact128k:v0.7", cap=400000)    # 1 + 131071 bytes: the limit itself, accepted
+    # round 3: hand-made v0.5 - v0.7 frames at every case split of the frame walkers (header forms, empty raw block, end mark only, truncations):
+    # ZSTD_findFrameCompressedSize / ZSTD_decompressBound are compared with the extracted walker (check_legacy_walk)
+    body = bytes.fromhex("400003") + b"abc" + bytes.fromhex("c00000")
+    hand = [("25b52ffd00", body), ("26b52ffd00", body), ("26b52ffd4003", body), ("26b52ffd800300", body), ("26b52ffdc00300000000000000", body),
+            ("27b52ffd0000", body), ("27b52ffd2003", body), ("27b52ffd400003", body), ("27b52ffd60" "0300", body), ("27b52ffd8000" "03000000", body),
+            ("27b52ffdc000" "0300000000000000", body), ("27b52ffd0100aa", body), ("27b52ffd0200aabb", body), ("27b52ffd0300aabbccdd", body), ("27b52ffde3aabbccdd" "0300000000000000", body)]
+    for h, bd in hand:
+        fr = bytes.fromhex(h) + bd
+        add("L", fr, "legacy-hdr", cap=64)
+        add("L", bytes.fromhex(h) + bytes.fromhex("400000") + bd, "legacy-emptyraw", cap=64)
+        add("L", bytes.fromhex(h) + bytes.fromhex("000000") + bd, "legacy-emptycompressed", cap=64)
+        add("L", bytes.fromhex(h) + bytes.fromhex("c00000"), "legacy-endonly", cap=64)
+        add("L", fr + fr, "legacy-twoframes", cap=64)
+        for cut in (len(fr) - 1, len(fr) - 3, len(fr) - 4, len(h) // 2 + 2, len(h) // 2, 5, 4):
+            add("L", fr[:cut], "legacy-hdr-trunc", cap=64)
     for fr in leg:
         add("L", fr, "legacy-valid", cap=4096)
         # round 2: legacy frames decoded with a dictionary (any bytes, any length: shorter than a magic number, shorter than the
@@ -817,7 +843,7 @@ def debug_pass(ctx, defs, cases):
     """thorough tier: every case once more through an ASan build with -DDEBUGLEVEL=1 (assert() enabled): an assertion of lib/ that hostile
     bytes (or a legal call history of the harness) can falsify aborts the process in such builds - a call that does not return."""
     exe = core.build_harness("c03_fuzz", ["c03_fuzz.c"], variant="asan", extra_defs=["-DDEBUGLEVEL=1"], extra_flags=list(defs))
-    sub = [c for c in cases if c["cmd"] in ("F", "L", "D", "B", "K", "C", "O")]
+    sub = [c for c in cases if c["cmd"] in ("F", "L", "D", "B", "K", "C", "O", "R")]
     t0 = time.time()
     out, crashes = run_lines(exe, [case_line(c) for c in sub] + ["A a"])
     core.log("assert-enabled asan harness: %d cases in %.1fs (%d aborts)" % (len(sub), time.time() - t0, len(crashes)))
@@ -827,7 +853,8 @@ def debug_pass(ctx, defs, cases):
         c = byid.get(cid)
         summ = " ".join(re.findall(r"([^\n]*Assertion[^\n]*|ERROR: AddressSanitizer[^\n]*|SUMMARY:[^\n]*|runtime error:[^\n]*)", err)[:3]) or err[-300:]
         ctx.violation(dict(kind="fuzz", line=line[:1200000], origin=c["origin"] if c else "probe", rc=rc, variant="asan-debuglevel1", report=err[-2500:]),
-                      what="decoder harness (ASan build with -DDEBUGLEVEL=1) aborted on a %s input (rc=%d): %s" % (c["origin"] if c else "O1 probe", rc, summ[:400]))
+                      what="decoder harness (ASan build with -DDEBUGLEVEL=1) aborted on a %s input (rc=%d): %s" % (c["origin"] if c else "O1 probe", rc, summ[:400]),
+                      key=crash_key(c, err))
     ctx.notes["assert_enabled_variant"] = dict(cases=len(sub), aborts=len(crashes))
 
 
@@ -918,6 +945,153 @@ def legacy14_pass(ctx, defs):
     ctx.notes["legacy14"] = dict(cases=len(cases), accepted_one_shot=nacc, crashes=len(crashes))
 
 
+# --------------------------------------------------------------------------------------------------------------
+# the bounded, seeded libFuzzer phase (round 3; thorough tier, or C03_FUZZ_PHASE=1)
+
+FZ_TARGETS = [   # name, runs (thorough), max_len
+    ("legacy", 500000, 600), ("recover", 120000, 3000), ("stream", 120000, 3000), ("block", 250000, 1500), ("dict", 120000, 3000), ("reuse", 80000, 3000)]
+FZ_FLAGS = ["-O1", "-g", "-fno-omit-frame-pointer", "-fsanitize=fuzzer-no-link,address,undefined", "-fno-sanitize-recover=undefined", "-w",
+            "-DZSTD_VERIF", "-DZSTD_MULTITHREAD", "-DZSTD_LEGACY_SUPPORT=1", "-DDEBUGLEVEL=1"]
+
+
+def build_fuzz_targets():
+    """lib/ (every legacy version: ZSTD_LEGACY_SUPPORT=1, assert() enabled) compiled by clang for libFuzzer + ASan + UBSan, and the six targets
+    harness/c03_fz_*.c.  Cached by the content hash of lib/ + the targets.  None when clang is not installed."""
+    import shutil
+    cc = shutil.which("clang")
+    if not cc:
+        return None
+    tsrc = {n: os.path.join(core.HARNESS, "c03_fz_%s.c" % n) for n, _, _ in FZ_TARGETS}
+    key = hashlib.sha256((core.tree_hash() + "".join(open(x).read() for x in tsrc.values()) + " ".join(FZ_FLAGS)).encode()).hexdigest()[:16]
+    outdir = os.path.join(core.BUILD, "bin", "c03_fz", key)
+    with core.Lock("bin-c03_fz"):
+        if all(os.path.exists(os.path.join(outdir, n)) for n in tsrc):
+            os.utime(outdir, None)
+            return {n: os.path.join(outdir, n) for n in tsrc}
+        base = os.path.dirname(outdir)
+        os.makedirs(outdir, exist_ok=True)
+        for old in glob.glob(os.path.join(base, "*")):
+            try:
+                if old != outdir and time.time() - os.path.getmtime(old) > 3600:
+                    shutil.rmtree(old, ignore_errors=True)
+            except OSError:
+                pass
+        t0 = time.time()
+        srcs = [x for x in core.lib_sources()]
+        odir = os.path.join(outdir, "o")
+        os.makedirs(odir, exist_ok=True)
+
+        def comp(src):
+            o = os.path.join(odir, os.path.basename(src) + ".o")
+            q = subprocess.run([cc] + FZ_FLAGS + core.inc_flags() + ["-c", src, "-o", o], stdout=subprocess.PIPE, stderr=subprocess.STDOUT)
+            return o, q.returncode, q.stdout.decode("utf-8", "replace")
+        with ThreadPoolExecutor(4) as ex:
+            res = list(ex.map(comp, srcs))
+        bad = [r for r in res if r[1] != 0]
+        if bad:
+            raise RuntimeError("libFuzzer library build failed: " + bad[0][2][-2000:])
+        ar = os.path.join(outdir, "libzstd.a")
+        core.sh(["ar", "rcs", ar] + [r[0] for r in res], check=True)
+        shutil.rmtree(odir, ignore_errors=True)
+        for n, src in tsrc.items():
+            q = subprocess.run([cc, "-O1", "-g", "-fsanitize=fuzzer,address,undefined", "-fno-sanitize-recover=undefined", "-w"] + core.inc_flags()
+                               + [src, ar, "-lpthread", "-o", os.path.join(outdir, n + ".tmp")], stdout=subprocess.PIPE, stderr=subprocess.STDOUT)
+            if q.returncode != 0:
+                raise RuntimeError("libFuzzer target %s failed to build: %s" % (n, q.stdout.decode("utf-8", "replace")[-2000:]))
+            os.replace(os.path.join(outdir, n + ".tmp"), os.path.join(outdir, n))
+        core.log("built libFuzzer library (ZSTD_LEGACY_SUPPORT=1, asan+ubsan, DEBUGLEVEL=1) + %d targets in %.1fs" % (len(tsrc), time.time() - t0))
+    return {n: os.path.join(outdir, n) for n in tsrc}
+
+
+def fuzz_seeds(ctx, rng, gdict):
+    """deterministic seed corpora (name -> list of byte strings), in the input layout of each target"""
+    MAG = {1: bytes.fromhex("fd2fb51e"), 2: bytes.fromhex("22b52ffd"), 3: bytes.fromhex("23b52ffd"), 4: bytes.fromhex("24b52ffd")}
+    leg = []
+    for fr in legacy_frames((0x24, 0x25, 0x26, 0x27)):
+        v = fr[0] - 0x20
+        leg.append((v, fr))
+        if v == 4:
+            leg += [(3, MAG[3] + fr[5:]), (2, MAG[2] + fr[5:])]
+    for v in (1, 2, 3, 4, 5, 6, 7):
+        hdr = b"\x0a" if v == 4 else b"\x00" if v in (5, 6) else b"\x00\x00" if v == 7 else b""
+        leg.append((v, b"xxxx" + hdr + bytes.fromhex("400005") + b"hello" + bytes.fromhex("80000941c00000")))
+    leg.append((7, b"xxxx" + bytes.fromhex("0050" "00000a" + BIGMATCH_BODY + "c00000")))
+    seeds = {"legacy": [bytes([(v - 1) + 28, o]) + fr[4:] for v, fr in leg for o in (0, 2, 7)]}
+    valid = [v[0] for v in getattr(ctx, "c03_valid", []) if v[2] is None and len(v[0]) <= 2500][:40]
+    modern = valid + [fr for _, fr in leg if len(fr) > 4 and fr[:4] != b"xxxx"]
+    seeds["stream"] = [bytes([5 + (i % 3), 0, 14, i & 1]) + f for i, f in enumerate(modern)]
+    seeds["recover"] = [bytes([4 + (i % 4), (i * 2) & 2, 13, (1, 3, 9, 17, 0)[i % 5]]) + f + (modern[(i + 1) % len(modern)] if modern else b"") for i, f in enumerate(modern)]
+    blocks = []
+    for f in valid:
+        st = parse_structure(f)
+        if st and st["blocks"]:
+            _, bt, off, ln = st["blocks"][0]
+            if bt == 2 and ln < 1400:
+                blocks.append(bytes([6, 0, 0, 0xff]) + f[off:off + ln])
+    seeds["block"] = blocks or [bytes([6, 0, 0, 0xff]) + bytes.fromhex("000a00000000000000060008")]
+    gd, gf = gdict["dict"], gdict["frame"]
+    seeds["dict"] = [bytes([i * 2, 3, len(gd) & 255, len(gd) >> 8]) + gd + gf for i in range(6)] if len(gd) < 65536 else []
+    seeds["reuse"] = [bytes([sel, 2, 85, 128, par, 0]) + a + b + c for (sel, par), (a, b, c) in zip(((0x24, 0), (0x06, 1), (0x39, 4), (0x1b, 16)),
+                      zip(modern, modern[1:] + modern[:1], modern[2:] + modern[:2]))]
+    return seeds
+
+
+def fuzz_phase(ctx, gdict):
+    """Bounded coverage-guided search, reproducible from the seed: each target runs `-runs=N -seed=VERIF_SEED` (single process) from a corpus that the
+    driver writes deterministically; a sanitizer report, an assert() of lib/ or an oracle abort() of the target is a violation whose replay file carries
+    the input libFuzzer saved."""
+    import shutil, tempfile
+    exes = build_fuzz_targets()
+    if exes is None:
+        ctx.notes["fuzz_phase"] = "clang not installed: libFuzzer phase skipped"
+        return
+    rng = random.Random(ctx.seed * 104729 + 3)
+    seeds = fuzz_seeds(ctx, rng, gdict)
+    scale = float(os.environ.get("C03_FUZZ_SCALE", "1.0" if not ctx.quick else "0.03"))
+    work = tempfile.mkdtemp(prefix="zv-c03-fz-")
+    note = {}
+
+    def one(t):
+        name, runs, maxlen = t
+        cdir, adir = os.path.join(work, name, "corpus"), os.path.join(work, name, "art")
+        os.makedirs(cdir)
+        os.makedirs(adir)
+        for i, b in enumerate(seeds.get(name, [])):
+            open(os.path.join(cdir, "s%03d" % i), "wb").write(b[:maxlen])
+        n = max(1000, int(runs * scale))
+        t0 = time.time()
+        try:
+            q = subprocess.run([exes[name], "-runs=%d" % n, "-seed=%d" % (ctx.seed + 1), "-max_len=%d" % maxlen, "-timeout=25", "-rss_limit_mb=3000", "-print_final_stats=1",
+                                "-artifact_prefix=" + adir + "/", cdir], stdout=subprocess.PIPE, stderr=subprocess.STDOUT, timeout=900)
+            rc, log = q.returncode, q.stdout.decode("utf-8", "replace")
+        except subprocess.TimeoutExpired as e:
+            rc, log = 124, (e.stdout or b"").decode("utf-8", "replace")
+        arts = sorted(glob.glob(os.path.join(adir, "*")))
+        m = re.search(r"stat::number_of_executed_units:\s*(\d+)", log)
+        cov = re.findall(r"cov: (\d+)", log)
+        return name, rc, log, [(os.path.basename(a), open(a, "rb").read()) for a in arts], int(m.group(1)) if m else 0, int(cov[-1]) if cov else 0, time.time() - t0
+
+    try:
+        with ThreadPoolExecutor(3) as ex:
+            results = list(ex.map(one, FZ_TARGETS))
+    finally:
+        pass
+    for name, rc, log, arts, execs, cov, dt in results:
+        note[name] = dict(executions=execs, edges=cov, seconds=round(dt, 1), rc=rc, reports=len(arts))
+        ctx.count(("fuzzphase", name, "clean" if rc == 0 else "report"), nontrivial=True)
+        if rc == 124 and not arts:
+            note[name]["note"] = "time limit reached before the run count"
+            continue
+        if rc != 0 or arts:
+            summ = " ".join(re.findall(r"(ERROR: AddressSanitizer[^\n]*|SUMMARY:[^\n]*|runtime error:[^\n]*|[^\n]*Assertion[^\n]*|ERROR: libFuzzer[^\n]*|HISTORY DEPENDENCE[^\n]*|BOUND[^\n]*)", log)[:4]) or log[-300:]
+            data = arts[0][1] if arts else b""
+            ctx.violation(dict(kind="libfuzzer", target=name, input=data.hex(), artifact=arts[0][0] if arts else None, rc=rc, report=log[-3000:]),
+                          what="libFuzzer phase, target %s (ZSTD_LEGACY_SUPPORT=1, ASan+UBSan, assert() enabled): rc=%d after %d executions: %s" % (name, rc, execs, summ[:500]))
+    shutil.rmtree(work, ignore_errors=True)
+    ctx.notes["fuzz_phase"] = note
+    core.log("libFuzzer phase: " + ", ".join("%s %d exec / %d edges / %.0fs" % (k, v["executions"], v["edges"], v["seconds"]) for k, v in note.items()))
+
+
 def msan_key(c, err):
     if c and c["cmd"] in ("L", "D", "F") and c["dict"] and re.search(r"in ZSTDv05_loadEntropy", err) and "use-of-uninitialized-value" in err:
         return "C03-legacy-v05-loadentropy-uninit-log"
@@ -998,6 +1172,71 @@ def check_ctx_pointers(ctx, model_exe, items, variant):
     ctx.notes["ctx_pointer_traces"] = dict(total=len(items), private=n_ok)
 
 
+def check_legacy_walk(ctx, model_exe, cases, out, variant):
+    """L cases that start with a v0.5 / v0.6 / v0.7 magic: what ZSTD_findFrameCompressedSize answers (and ZSTD_decompressBound, when the input is one
+    frame) must be what the extracted frame walker (LegacyWalk.walk: proved total, inside the input, bound sound under the decoders' block limits) says."""
+    items = [c for c in cases if c["cmd"] == "L" and c["id"] in out and len(c["data"]) >= 1 and c["data"][0] in (0x25, 0x26, 0x27) and len(c["data"]) <= 20000]
+    if not items:
+        return
+    res = {}
+    for l in run_model(model_exe, ["LW %s %s" % (c["id"], codec.hx(c["data"])) for c in items]):
+        t = l.split(" ")
+        if len(t) >= 3 and t[0] == "LW":
+            res[t[1]] = t[2:]
+    n_ok = n_err = 0
+    for c in items:
+        m = res.get(c["id"])
+        insp = dict(x.split(":", 1) for x in fields(out[c["id"]]).get("insp", "").split(",") if ":" in x)
+        if not m or "cs" not in insp:
+            continue
+        cs, bound = insp["cs"], insp.get("bound", "")
+        ctx.count(("legacywalk", m[0], c["origin"].split(":")[0]), nontrivial=True)
+        if m[0] == "OK":
+            md = dict(x.split("=") for x in m[1:])
+            n_ok += 1
+            if cs != md["cs"] or (int(md["cs"]) == len(c["data"]) and bound != md["bound"]):
+                ctx.violation(replay_of(c, what="legacywalk", observed="cs:%s bound:%s" % (cs, bound), model=" ".join(m), variant=variant),
+                              what="legacy frame walker (%s input): ZSTD_findFrameCompressedSize / ZSTD_decompressBound answer cs=%s bound=%s, the model %s" % (c["origin"], cs, bound, " ".join(m)))
+        elif m[0] == "ERR":
+            n_err += 1
+            if not cs.startswith("E"):
+                ctx.violation(replay_of(c, what="legacywalk", observed="cs:%s" % cs, model=" ".join(m), variant=variant),
+                              what="legacy frame walker (%s input): ZSTD_findFrameCompressedSize answers %s where the model refuses the frame (%s)" % (c["origin"], cs, m[1]))
+    ctx.notes["legacy_walk_tie"] = dict(frames=len(items), accepted=n_ok, refused=n_err)
+
+
+def check_skippable(ctx, model_exe, cases, out, variant):
+    """inputs that start with a skippable magic: ZSTD_findFrameCompressedSize and ZSTD_readSkippableFrame (random capacity 0..63) must answer what
+    SkipSize.skip_size / read_skip say at 64 bits (proved exact / inside for every width of size_t from 32 bits)."""
+    items = [c for c in cases if c["cmd"] == "F" and c["id"] in out and len(c["data"]) >= 4 and (c["data"][0] & 0xf0) == 0x50 and c["data"][1:4] == SKIPMAGIC[1:4]
+             and "ml" not in c["flags"].split(",")]
+    lines, meta = [], {}
+    for c in items:
+        fd = fields(out[c["id"]])
+        insp = dict(x.split(":", 1) for x in fd.get("insp", "").split(",") if ":" in x)
+        if "cs" not in insp:
+            continue
+        capv = fd.get("sk", "0:E0").split(":")[0]
+        u = int.from_bytes(c["data"][4:8], "little") if len(c["data"]) >= 8 else 0
+        lines.append("SK %s %d %d %s" % (c["id"], u, len(c["data"]), capv))
+        meta[c["id"]] = (c, insp["cs"], fd.get("sk"))
+    n = 0
+    for l in run_model(model_exe, lines):
+        t = l.split(" ")
+        if len(t) < 4 or t[0] != "SK" or t[1] not in meta:
+            continue
+        c, cs, sk = meta[t[1]]
+        md = dict(x.split("=") for x in t[2:])
+        want_cs = "E0" if md["size"] == "E" else md["size"]
+        want_sk = None if sk is None else sk.split(":")[0] + ":" + ("E0" if md["read"] == "E" else md["read"])
+        n += 1
+        ctx.count(("skippable", md["size"] == "E", md["read"] == "E"), nontrivial=True)
+        if cs != want_cs or (len(c["data"]) >= 8 and sk != want_sk):
+            ctx.violation(replay_of(c, what="skippable", observed="cs:%s sk=%s" % (cs, sk), model=" ".join(t[2:]), variant=variant),
+                          what="skippable frame (%s input): ZSTD_findFrameCompressedSize = %s, ZSTD_readSkippableFrame = %s; the size model says %s" % (c["origin"], cs, sk, " ".join(t[2:])))
+    ctx.notes["skippable_tie"] = n
+
+
 def check_dict_owner(ctx, model_exe, items, variant):
     """O cases: ddictLocal / ddict / dictUses of the three contexts after every operation of the history must be what the model with the repaired
     ZSTD_copyDCtx says (DictOwner.dstep true, proved: no frame dereferences a released DDict, for every history); a use must succeed exactly when the
@@ -1061,6 +1300,8 @@ def crash_key(c, err):
         return "C03-block-api-empty-insertblock-loses-prefix"
     if c["cmd"] == "C" and "cmd_C" in err:
         return "C03-copydctx-table-pointers-into-source"
+    if c["cmd"] == "R":
+        return "C03-single-call-after-stream-error-keeps-stream-stage"
     if c["cmd"] == "O" and "cmd_O" in err and "heap-use-after-free" in err:
         return "C03-copydctx-ddict-pointer-into-source"
     return None
@@ -1105,7 +1346,8 @@ def evaluate(ctx, cd, model_exe, cases, out, crashes, npmax, variant):
                 ctx.violation(replay_of(c, flags=fl, result=out[c["id"]][:600], variant=variant),
                               what="decoder oracle failed on a %s input (%s build): %s" % (c["origin"], variant, fl),
                               key=("C03-block-api-empty-insertblock-loses-prefix" if (c["cmd"] == "K" and fl == "EMPTYOP") else
-                                   "C03-copydctx-table-pointers-into-source" if (c["cmd"] == "C" and fl == "COPYDIFF") else None))
+                                   "C03-copydctx-table-pointers-into-source" if (c["cmd"] == "C" and fl == "COPYDIFF") else
+                                   "C03-single-call-after-stream-error-keeps-stream-stage" if (c["cmd"] == "R" and fl == "RECOVER") else None))
         o = c["origin"].split(":")[0]
         hist[o] = hist.get(o, 0) + 1
         if c["cmd"] == "K" and variant == "asan":
@@ -1194,6 +1436,8 @@ def evaluate(ctx, cd, model_exe, cases, out, crashes, npmax, variant):
         check_continuity(ctx, model_exe, k_items, variant)
         check_ctx_pointers(ctx, model_exe, c_items, variant)
         check_dict_owner(ctx, model_exe, o_items, variant)
+        check_legacy_walk(ctx, model_exe, cases, out, variant)
+        check_skippable(ctx, model_exe, cases, out, variant)
         ctx.notes["ring_traces"] = check_ring(ctx, model_exe, rg_items)
         ctx.notes["origins"] = hist
         ctx.notes["permissive_cases"] = perm
@@ -1616,6 +1860,19 @@ def run(ctx):
             i = rp["line"].split(" ")[1]
             if crashes or (cout.get(i, "").startswith("OK") and not (mout and mout[0].split(" ", 2)[2] == cout.get(i))):
                 ctx.violation(rp, what="replay: entropy table reader still traps / accepts what the reference reader does not accept identically")
+        elif rp.get("kind") == "libfuzzer":
+            exes = build_fuzz_targets()
+            if exes is None:
+                core.log("clang not installed: cannot replay a libFuzzer report")
+            else:
+                import tempfile
+                with tempfile.NamedTemporaryFile(suffix=".bin") as tf:
+                    tf.write(bytes.fromhex(rp.get("input", "")))
+                    tf.flush()
+                    q = subprocess.run([exes[rp["target"]], tf.name], stdout=subprocess.PIPE, stderr=subprocess.STDOUT, timeout=300)
+                core.log("libFuzzer target %s on the saved input: rc=%d %s" % (rp["target"], q.returncode, q.stdout.decode("utf-8", "replace")[-600:]))
+                if q.returncode != 0:
+                    ctx.violation(rp, what="replay: libFuzzer target %s still reports on the saved input" % rp["target"])
         elif rp.get("kind") == "litbuf":
             lb = core.build_harness("c03_litbuf", ["c03_litbuf.c"], variant="asan", extra_flags=["-w"])
             cout, crashes = run_lines(lb, [rp["line"]], nproc=1, out_id_index=1)
@@ -1692,6 +1949,8 @@ def run(ctx):
 
     if not ctx.quick or os.environ.get("C03_ASSERT_VARIANT"):        # (the variable lets the quick case set go through it: used by the mutation tests)
         debug_pass(ctx, defs, cases)
+    if not ctx.quick or os.environ.get("C03_FUZZ_PHASE"):            # (the variable runs a tenth of the thorough run counts in the quick tier)
+        fuzz_phase(ctx, gdict)
     if not ctx.quick:
         # other decoder build variants: same inputs, same oracles except the sanitizer; outputs must equal the asan build's
         vtol = {}
